@@ -424,21 +424,12 @@ def handle_result(ctx, inp, cfg, res, mixed):
             # narrow rule: the punch file was re-opened after text had been punched for n (events) AND the input text
             # re-reads a SELECTED_OUTPUT n block in a later simulation of this call
             ctx.finding("selected-output-redefined-within-call", text, dict(rep, oracle=res["oracle"][:5]))
-        elif key == "sel-heading-columns" and not endrow_checks_user_punch() and n_user in user_punch_false_numbers(inp):
-            ctx.finding("user-punch-false-columns-in-table", text, dict(rep, oracle=res["oracle"][:5]))
         elif key.startswith("sel-") and mixed:
             ctx.finding("get_sel_out_string_on-ignores-n", text, dict(rep, oracle=res["oracle"][:5]))
         else:
             ctx.violation("model and code agree but the property's relation fails: " + text,
                           dict(rep, oracle=res["oracle"][:5]))
             return
-
-
-def user_punch_false_numbers(inp):
-    """numbers that the input text gives a USER_PUNCH program and -user_punch false"""
-    ts = TextState()
-    ts.read_call(inp)
-    return {n for n in ts.up if not ts.user_punch_on.get(n, True)}
 
 
 def late_blocks(inp):
@@ -909,9 +900,21 @@ def fmt_queries(events, ts_before, info, ts_after):
 
 SPECIAL = ("@LOAD_OK", "@LOAD_MISSING", "@LOADSTR_BAD")
 BAD_DB_STRING = "SOLUTION_MASTER_SPECIES\n H H+ -1 1 1.008\nSOLUTION_SPECIES\n H+ = H+\n log_k 0\n Xx+ = Xx+\n log_k 0\nEND\n"
-# source shape followed by the model: are the output/log line vectors re-split when a call stops before do_run (no database)
-# and after a failed LoadDatabase? (code as written: no)
-REFRESHED = False
+def lines_refreshed():
+    """source shape followed by the model: are the output/log line vectors re-split when a call stops before do_run (no
+    database: check_database) and after LoadDatabase / LoadDatabaseString (load_db, load_db_str)? Since fix d0a3a66f: yes.
+    A mixed shape is judged with the proved variant (re-split everywhere)."""
+    src = _re.sub(r"//[^\n]*", "", (vlib.REPO / "src" / "IPhreeqc.cpp").read_text())
+    def body(sig):
+        a = src.find(sig)
+        if a < 0:
+            raise RuntimeError("IPhreeqc.cpp: %s not recognised" % sig)
+        b = src.find("\n}\n", a)
+        return src[a:b]
+    marks = ["OutputLines" in body("void IPhreeqc::check_database(") and ("refresh_lines(" in body("void IPhreeqc::check_database(") or "getline" in body("void IPhreeqc::check_database(")),
+             "refresh_lines(" in body("int IPhreeqc::load_db(") or "OutputLines" in body("int IPhreeqc::load_db("),
+             "refresh_lines(" in body("int IPhreeqc::load_db_str(") or "OutputLines" in body("int IPhreeqc::load_db_str(")]
+    return any(marks)
 
 
 def step_kind(inp, db_loaded):
@@ -986,7 +989,7 @@ def run_history(ctx, exe, inputs, cfgs, cells_cap=None, names=None, db=DB, noloa
     if len(runrec) != len(inputs) or len(vrec) != len(inputs):
         return {"crash": "no-result", "stdout": out[-5:], "script": script}
     # ---- Lean history model: one invocation for the whole history
-    ml = [f"cfg refreshed {int(REFRESHED)}"]
+    ml = [f"cfg refreshed {int(lines_refreshed())}"]
     TERM = {"run": "endcall", "nodb": "endcallnodb", "loadfail": "endloadfail"}
     for cfg, rr, vr, kind in zip(cfgs, runrec, vrec, kinds_):
         selusers = sorted(vr["views"].get("tab", {}).keys()) if kind == "run" else []
@@ -996,8 +999,11 @@ def run_history(ctx, exe, inputs, cfgs, cells_cap=None, names=None, db=DB, noloa
             ml += hist_cfg_lines(cfg, selusers) + rr["events"] + [TERM[kind]]
     cell_specs = []
     if cells_cap is not None:
+        last_tabs = vrec[-1]["views"].get("tab", {})
         for n in snaps[-1][2] + [77, 0]:
-            d = int(n in snaps[-1][2])
+            # does the object hold a table for n? (after a call stopped by an error the tables of blocks read later are missing;
+            # the defined numbers themselves are tied to the input texts by the `defs` relation of error-free histories)
+            d = int(n in last_tabs and last_tabs[n][0] != "none")
             ml.append(f"cells {n} {d} -1 9 -2 14 {cells_cap}")
             cell_specs.append(n)
     mout = ctx.pmodel("route", "\n".join(ml) + "\n")
@@ -1112,8 +1118,6 @@ def run_history(ctx, exe, inputs, cfgs, cells_cap=None, names=None, db=DB, noloa
                 if hp is not None and n in snaps[k][1][0] and n not in info["ambiguous"] and int(hp) != int(snaps[k][1][0][n]):
                     r["rel"].append(("hp", f"sel {n}: engine high_precision {hp}, input texts say {int(snaps[k][1][0][n])}"))
             r["oracle"] += columns_oracle(events, views, skip=set(info["late_redef"]) | set(info["ambiguous"]))
-            # numbers with a USER_PUNCH program and -user_punch false (input texts)
-            r["upf"] = sorted(n for n in snaps[k][1][2] if not snaps[k][1][1].get(n, True)) if not endrow_checks_user_punch() else []
             r["columns_judged"] = True
             isk = skeleton_of_events(events)
             r["sk_impl"], r["sk_model"] = isk, skout[k]
@@ -1224,15 +1228,6 @@ def handle_history_result(ctx, inputs, cfgs, k, r, hoisted, noload=False):
         if key in ("sel-string-rows", "sel-file-rows", "sel-file-ne-string") and n_user in r["redefined"]:
             # narrow rule: a SELECTED_OUTPUT n block that the INPUT TEXT of this call re-reads in a later simulation
             ctx.finding("selected-output-redefined-within-call", text, dict(rep, oracle=r["oracle"][:5]))
-        elif key == "sel-heading-columns" and n_user in r.get("upf", []):
-            # narrow rule: the block says -user_punch false and a USER_PUNCH of its number exists (input texts): IPhreeqc::EndRow
-            # still pads the table with one empty column per USER_PUNCH heading; heading line and rows do not have them
-            ctx.finding("user-punch-false-columns-in-table", text, dict(rep, oracle=r["oracle"][:5]))
-        elif (key in ("out-lines", "log-lines", "out-disabled-lines", "log-disabled-lines") and r.get("kind") in ("nodb", "loadfail")
-              and not REFRESHED):
-            # narrow rule: a Run* call stopped by "No database is loaded" or a failed LoadDatabase(String): do_run, which
-            # splits the output/log strings into the line vectors, is never reached
-            ctx.finding("lines-not-split-without-do-run", text, dict(rep, oracle=r["oracle"][:5], step=r.get("kind")))
         elif key.startswith("sel-") and mixed:
             ctx.finding("get_sel_out_string_on-ignores-n", text, dict(rep, oracle=r["oracle"][:5]))
         else:
